@@ -47,6 +47,9 @@ OBLIGATIONS = [
     "C13_clones_only_pure", "C13_estimate_many_pure", "C13_scipy_call_pure", "C13_mcmc_call_clean",
     "C13_seeded_call_function_of_seed", "C13_repeated_call_same_answer", "C13_mcmc_repeat_same_answer",
     "C13_settings_copied", "C13_settings_alias_refuted", "C13_call_examples",
+    # composition with C01 (coq/theories/Compose/): the interface hypothesis discharged on the real State model
+    "C13_state_interface_discharged", "C13_estimate_pure_state", "C13_simulate_pure_state", "C13_mcmc_clean_state",
+    "C13_history_independent_state", "C13_state_examples",
 ]
 
 SCRATCH = f"/tmp/scratch/c13-check-{os.getpid()}"
